@@ -616,6 +616,35 @@ def rust_str(s):
     return "".join(out)
 
 
+def rust_lit(s, key=None):
+    """The literal of a format ATTRIBUTE in one of the spellings Rust source allows for the same string value, chosen by the
+    case key (a quarter each: two plain; the braces and the first name character as `\\u{..}` escapes - hex digits in both cases,
+    `{` is `\\u{7b}`; a raw string `r#"..."#`). What a derive reads must be the literal's VALUE, never its source text."""
+    pick = seeded_pick(key if key is not None else s, 41, 4)
+    if pick == 2:
+        out, first = ['"'], True
+        for ch in s:
+            if ch == "{":
+                out.append("\\u{7b}")
+            elif ch == "}":
+                out.append("\\u{7D}")
+            elif first and (ch.isalpha() or ch == "_") and ord(ch) < 0x80:
+                out.append("\\u{%04x}" % ord(ch))
+                first = False
+            else:
+                out.append(rust_str(ch)[1:-1])
+        return "".join(out) + '"'
+    if pick == 3 and '"#' not in s and all(ord(c) >= 0x20 and ord(c) != 0x7f for c in s):
+        return 'r#"' + s + '"#'
+    return rust_str(s)
+
+
+def respell(body, key=None):
+    """`"literal", args` -> the same with the (escape-free) leading literal in the spelling rust_lit picks for the key"""
+    m = re.match(r'"([^"\\\\]*)"', body)
+    return (rust_lit(m.group(1), key if key is not None else body) + body[m.end():]) if m else body
+
+
 # ------------------------------------------------------------------------------------------------
 # verdict crates: many small cases in one crate, compile diagnostics mapped back by line
 # ------------------------------------------------------------------------------------------------
